@@ -862,8 +862,9 @@ fn gen_list(ch: &mut Choices, version: u16, has_base: bool, loc: bool) -> Vec<(L
     let mut at = 0x100u64;
     for _ in 0..n {
         let b = at + ch.below(0x40) as u64;
-        let e = b + 1 + ch.below(0x40) as u64;
-        at = e;
+        // now and then an empty range (begin = end): a legal entry that readers skip
+        let e = if ch.chance(20) { b } else { b + 1 + ch.below(0x40) as u64 };
+        at = e + 1;
         if version >= 5 {
             v.push(match ch.below(8) {
                 0 => (LE::BaseAddress(0x20_0000 + ch.below(8) as u64 * 0x1000), false),
